@@ -405,7 +405,6 @@ class SchemaValidator:
                     'Interface field "%s" expects type "%s" but "%s" is type "%s"'
                     % (interface_path, field.type, obj_path, object_field.type)
                 )
-                continue
 
             for arg in field.arguments:
                 object_arg = object_field.argument_map.get(arg.name, None)
